@@ -50,9 +50,16 @@ class SymTime:
 
 
 class SymDateTime:
-    """datetime.datetime: epoch day (days since 1970-01-01) and second of day; `clock` names the clock it came from"""
-    def __init__(self, day, sod, clock=None):
-        self.day, self.sod, self.clock = day, sod, clock
+    """datetime.datetime: epoch day (days since 1970-01-01) and second of day; `clock` names the clock it came from.
+    hms: optional (h, m, s) components with sod = 3600 h + 60 m + s (keeps formulas free of div/mod)"""
+    def __init__(self, day, sod, clock=None, hms=None):
+        self.day, self.sod, self.clock, self.hms = day, sod, clock, hms
+
+    def parts(self):
+        if self.hms is not None:
+            return self.hms
+        sod = zi(self.sod)
+        return simp(sod / 3600), simp((sod / 60) % 60), simp(sod % 60)
 
     def total(self):
         return simp(zi(self.day) * 86400 + zi(self.sod))
